@@ -1,3 +1,4 @@
+import re
 """Operation streams and predicates, C14..C20."""
 import random, itertools, re
 import props as P
@@ -98,9 +99,23 @@ class C15(Prop):
                 for t, hx, pos in positions(e):
                     op = 'chain' if pos in ('extra-value', 'value', 'exp', 'nonce', 'keylen', 'label') else 'dec'
                     ops.append(mk('%s %s b%s' % (op, t, hx), k=pos, n=n, bignum=e[0] in (0xc2, 0xc3), nonmin=(e[0] in (0xc2, 0xc3) and e[2:3] == b'\x00')))
+        # two distinct in-range integers side by side in one map, both orders: each must come out exactly, neither may be taken for the other
+        near = [x + d for x in (-2**63, -65538, -2**32, -256, -24, 24, 256, 2**32, 2**63 - 2, 100) for d in (0, 1)]
+        for a in near:
+            for b in (a + 1, a - 1):
+                if not (-2**63 <= b <= 2**63 - 1): continue
+                ea = refcbor.encode(('int', a)).hex(); eb = refcbor.encode(('int', b)).hex()
+                for t, hx in (('ClaimsSet', 'a2' + ea + '01' + eb + '02'), ('Header', 'a2' + ea + '01' + eb + '02'), ('CoseKey', 'a3' + ea + '01' + eb + '02' + '0101')):
+                    ops.append(mk('dec %s b%s' % (t, hx), k='pair', n=a, m=b, t=t))
         return ops
     def impl_pred(self, o, impl):
         m = o['meta']; n = m['n']; pos = m['k']
+        if pos == 'pair':
+            typed = {'ClaimsSet': range(1, 8), 'Header': range(1, 8), 'CoseKey': range(1, 6)}[m['t']]
+            if n in typed or m['m'] in typed: return None
+            if impl == 'err Dup': return 'two distinct integers were taken for the same label'
+            if impl.startswith('ok') and not all(re.search(r'\b[iAP]%d\b' % x, impl) for x in (n, m['m'])): return 'a decoded label differs from the wire value'
+            return None
         lo, hi = (-2**63, 2**63 - 1) if pos != 'keylen' else (0, 2**64 - 1)
         interp = pos not in ('extra-value', 'value')
         if interp:
@@ -205,7 +220,9 @@ class C18(Prop):
         r = random.Random(seed); g = T(seed, valid=0.9); ops = []
         I = lambda x: ('int', x); B = lambda b: ('bytes', b); Tx = lambda b: ('text', b); F = lambda b: ('float', b)
         keys = list(range(0, 10)) + [38, 39, 40, 41, -260, -259, -258, -257, -256, -65536, -65537, -70000, 10, 2**63, -2**63]
-        tsv = [I(0), I(1700000000), I(-1), I(2**63 - 1), I(-2**63), I(2**63), I(-2**63 - 1), F(0x3ff8000000000000), F(0x3e00 << 48), F(0), F(0x8000000000000000), F(0x7ff0000000000000), F(0xfff0000000000000), F(0x7ff8000000000000), F(0x41d954fc40000000), Tx(b'1'), ('null',), B(b'')]
+        tsv = [I(0), I(1700000000), I(-1), I(2**63 - 1), I(-2**63), I(2**63), I(-2**63 - 1), F(0x3ff8000000000000), F(0x3e00 << 48), F(0), F(0x8000000000000000), F(0x7ff0000000000000), F(0xfff0000000000000), F(0x7ff8000000000000), F(0x41d954fc40000000), Tx(b'1'), ('null',), B(b''),
+               # a timestamp is an integer or a float, never a tagged item (seeded C18-r5: tag 1 accepted)
+               ('tag', 1, I(1700000000)), ('tag', 1, F(0x3ff8000000000000)), ('tag', 0, Tx(b'2013-03-21T20:04:00Z')), ('tag', 1, ('tag', 1, I(0))), ('tag', 2, B(b'\x01')), ('tag', 55799, I(5))]
         def claimval(k):
             if k in (1, 2, 3): return r.choice([Tx(b'iss'), Tx(b''), B(b'x'), I(1), ('null',)])
             if k in (4, 5, 6): return r.choice(tsv)
@@ -218,6 +235,10 @@ class C18(Prop):
                 kv = I(k) if k is not None else r.choice([Tx(r.choice(TEXTS)), B(b'k'), ('null',), F(0)])
                 m.append((kv, claimval(k)))
             if r.random() < 0.06 and m: m.append(r.choice(m))
+            if r.random() < 0.05:
+                # distinct private / registered names that differ in the last unit (seeded C15-r5: -2^63 and -2^63+1 judged equal)
+                a = r.choice([-2**63, -2**63 + 1, -65538, -70000, -260, -258, 39, 8]); m += [(I(a), I(1)), (I(a + 1), r.choice([I(2), B(b'\x01\x02'), ('map', [])]))]
+                r.shuffle(m)
             v = ('map', m); b = refcbor.encode(v) if r.random() < 0.5 else g.venc(v)
             ops.append(mk('chain ClaimsSet b' + b.hex(), k='claims'))
         for v in tsv: ops.append(mk('fromv Timestamp ' + vsx(v), k='timestamp'))
